@@ -159,6 +159,7 @@ def num(v, base, w, upper):
 class Env:
     def __init__(self, pc, base, case, bb):
         self.vars = {'base': base, 'case': case, 'mode[base]': base, 'mode[case]': case}
+        self.svars = {}
         self.mem = {}
         self.stack = []
         self.defs = {}
@@ -375,6 +376,10 @@ class Shadow:
         self.env.vars[x['n']] = v
         return ''
 
+    def x_LetS(self, x):
+        self.env.svars[x['n']] = self.expand(x['v'])
+        return ''
+
     def x_Format(self, x):
         case, = self.params(x['p'], [0])
         if case not in (0, 1, 2):
@@ -383,6 +388,10 @@ class Shadow:
         for p in x['parts']:
             if p['f'] == 0:
                 out += ''.join(chr(c) for c in p['s'])
+            elif p['f'] == 2:
+                if p['n'] not in self.env.svars:
+                    raise Reject('format string var')
+                out += self.env.svars[p['n']]
             else:
                 if p['n'] not in self.env.vars:
                     raise Reject('format var')
@@ -411,15 +420,15 @@ class Shadow:
             if not ip['hasd'] and i + 1 not in given:
                 raise Reject('missing argument')
         vals = self.params(x['p'], [ip['d'] for ip in d['ip']])
-        if len(x['sa']) != len(d['sp']):
+        if len(x['sa']) > len(d['sp']) or any(not sp['hasd'] for sp in d['sp'][len(x['sa']):]):
             raise Reject('string args')
         old = dict(env.subs)
         for ip, v in zip(d['ip'], vals):
             env.subs[ip['n']] = (1, v, str(v), None)
             if v < 0:
                 d['_negp'] = d.get('_negp', set()) | {ip['n']}
-        for sn, sa in zip(d['sp'], x['sa']):
-            env.subs[sn] = (2, 0, '', sa)
+        for i, sp in enumerate(d['sp']):
+            env.subs[sp['n']] = (2, 0, '', x['sa'][i] if i < len(x['sa']) else sp['d'])
         out = self.expand(d['body'])
         env.subs = old
         if d['flags'] & 2:
@@ -606,6 +615,7 @@ class Gen:
         self.r = rng
         self.maxdepth = maxdepth
         self.vars = []
+        self.svars = []
         self.locked = set()
         self.defs = {}            # name -> (def node, kind 'int' | 'text')
         self.isubs = []           # integer substitutions in scope (symbolic names)
@@ -678,6 +688,11 @@ class Gen:
             return Lit(r.randint(0, 1))
         if ed <= 0 or r.random() < .3:
             return self.atom(d)
+        free = [v for v in self.vars if v not in self.locked]
+        if d > 0 and free and r.random() < .04:
+            # {n} written to the left of a #LET(n=...) nested in the same parameter string still sees the new value
+            n = r.choice(free)
+            return Bin(r.choice(['+', '-', '*', '|']), Var(n), {'o': 'pre', 'x': {'t': 'Let', 'n': n, 'e': self.expr(0, 1)}, 'e': self.atom(0)})
         o = r.choice(['+', '+', '-', '-', '*', '*', '/', '%', '**', '&', '|', '^', '<<', '>>', 'cmp', 'bool'])
         if o == 'cmp':
             return Bin(r.choice(CMP), self.expr(d, ed - 1), self.expr(d, ed - 1))
@@ -787,7 +802,9 @@ class Gen:
             ents.append({'k': i + 1, 'e': self.expr(d - 1, 1) if r.random() < .7 else self.lit()})
         if r.random() < .4:
             r.shuffle(ents)              # keyword arguments in any order
-        sa = [self.inline(d - 1, 2) for _ in dn['sp']]
+        nreq = len([sp for sp in dn['sp'] if not sp['hasd']])
+        nsa = r.randint(nreq, len(dn['sp']))
+        sa = [self.inline(d - 1, 2) for _ in range(nsa)]
         return {'t': 'Call', 'n': name, 'p': ents, 'sa': sa}
 
     # ---- general terms
@@ -973,6 +990,8 @@ class Gen:
         for _ in range(r.randint(1, 4)):
             if r.random() < .4 or not self.vars:
                 parts.append({'f': 0, 's': [ord(c) for c in self.text(1, 4, LOW + UPC + DIG + ' .:=&<')]})
+            elif self.svars and r.random() < .3:
+                parts.append({'f': 2, 'n': r.choice(self.svars), 'z': 0, 'w': 0, 'ty': '', 's': []})
             else:
                 ty = r.choice(['', '', 'd', 'x', 'X', 'b'])
                 w = r.choice([0, 0, 2, 4, 5, 8])
@@ -1095,14 +1114,25 @@ class Gen:
         r = self.r
         kind = r.choice(['int', 'int', 'text'])
         nip = r.choice([0, 1, 1, 2, 2, 3])
-        names = r.sample(PARAMNAMES, nip + 1)
+        names = r.sample(PARAMNAMES, nip)
         ip = []
         seen_default = False
         for n in names[:nip]:
             hasd = 1 if (seen_default or r.random() < .35) else 0
             seen_default = seen_default or bool(hasd)
             ip.append({'n': n, 'd': r.randint(0, 20) if hasd else 0, 'hasd': hasd})
-        sp = [names[nip]] if (kind == 'text' and r.random() < .6) else []
+        sp = []
+        if kind == 'text' and r.random() < .7:
+            for sn in r.sample([n for n in PARAMNAMES if n not in names[:nip]], r.choice([1, 1, 2])):
+                hasd = 1 if (sp and sp[-1]['hasd']) or r.random() < .4 else 0
+                dflt = T('')
+                if hasd:
+                    c = r.random()
+                    dflt = T(self.text(0, 4, LOW + DIG + '.-'))
+                    if c < .4 and ip:
+                        # "their default values may refer to the integer argument values"
+                        dflt = Seq([dflt, {'t': 'Sub', 'n': ip[0]['n']}])
+                sp.append({'n': sn, 'hasd': hasd, 'd': dflt})
         flags = r.choice([0, 0, 1, 2, 3])
         saved = self.isubs
         self.isubs = [p['n'] for p in ip]
@@ -1121,8 +1151,8 @@ class Gen:
             xs = [T(self.text(1, 3, LOW + DIG + '.:!', edge=True))]
             for _ in range(r.randint(0, 2)):
                 xs.append(self.term(1))
-            if sp:
-                xs.insert(r.randint(1, len(xs)), {'t': 'Sub', 'n': sp[0]})
+            for q in sp:
+                xs.insert(r.randint(1, len(xs)), {'t': 'Sub', 'n': q['n']})
             if ip:
                 xs.insert(r.randint(1, len(xs)), {'t': 'Sub', 'n': ip[0]['n']})
             if r.random() < .25 and self.vars:
@@ -1179,6 +1209,12 @@ class Gen:
             self.vars.append(name)
             if r.random() < .3:
                 lets.append(T(self.text(0, 2, LOW + ' ')))
+        for name in r.sample(['s$', 'msg$', 'w1$'], r.choice([0, 0, 1, 2])):
+            v = T(self.text(1, 6, LOW + DIG + ' .:&<', edge=True))
+            if r.random() < .4:
+                v = Seq([v, self.t_eval(1), T(self.text(1, 2, LOW, edge=True))])
+            lets.append({'t': 'LetS', 'n': name, 'v': v})
+            self.svars.append(name)
         # definitions come first in the text (their bodies may use the variables: they are expanded when called)
         for name in r.sample(DEFNAMES, r.choice([0, 1, 1, 2, 2])):
             xs.append(self.t_def(name))
@@ -1268,6 +1304,7 @@ class Render:
         self.used = set()             # syntax classes used (evidence / vacuity)
         self.htmlsafe = True
         self.inloop = 0
+        self.inint = 0                # > 0 while rendering an integer parameter string
 
     # ---- expressions
     def lit(self, v, top):
@@ -1309,10 +1346,14 @@ class Render:
                 s = '${' + s[1:] + '}'
         elif o == 'm':
             self.used.add('nested-in-int')
+            self.inint += 1
             s = self.term(e['x'], follow if not (neg and not top) else ')')
+            self.inint -= 1
         elif o == 'pre':
             self.used.add('nested-let-in-int')
+            self.inint += 1
             s = self.term(e['x'], '{') + self.expr(e['e'], False)
+            self.inint -= 1
             return s if (top and not neg) else '(' + s + ')'
         else:
             return self.binop(e, top, follow)
@@ -1414,7 +1455,7 @@ class Render:
         if parens_only:
             styles = ['(']
         r.shuffle(styles)
-        for st in styles + ['(', '[', '{', 'alt', 'alt', 'alt', 'alt', 'alt', 'alt']:
+        for st in styles + ([] if parens_only else ['(', '[', '{', 'alt', 'alt', 'alt', 'alt', 'alt', 'alt']):
             s = self.try_style(items, single, st, noalnum)
             if s is not None:
                 return s
@@ -1431,6 +1472,8 @@ class Render:
             if not single and doc_split_commas(body) != list(items):
                 return None
             self.used.add('str:' + st + ('1' if single else 'n'))
+            if self.inint and st == '{':
+                self.used.add('nested-brace-in-int')
             return s
         joined = ''.join(items)
         cands = [c for c in ALT_DELIMS if c not in joined]
@@ -1533,6 +1576,7 @@ class Render:
     def loop_strings(self, x, subs_in_sep):
         r = self.r
         neg = x.get('_negvar', False)
+        PH_LOOP = chr(0xE010 + self.inloop)        # private marker of this loop's variable while its name is chosen
         for attempt in range(12):
             var = r.choice(LOOPVARS)
             self.scope[x['var']] = (PH_LOOP, neg)
@@ -1582,11 +1626,17 @@ class Render:
     def m_Let(self, x, follow):
         return '#LET', self.strings([x['n'] + '=' + self.expr(x['e'], True, None)], single=True)
 
+    def m_LetS(self, x, follow):
+        self.used.add('let:string')
+        return '#LET', self.strings([x['n'] + '=' + self.term(x['v'], '')], single=True)
+
     def m_Format(self, x, follow):
         text = ''
         for p in x['parts']:
             if p['f'] == 0:
                 text += ''.join(chr(c) for c in p['s'])
+            elif p['f'] == 2:
+                text += '{' + p['n'] + '}'
             else:
                 spec = ('0' if p['z'] else '') + (str(p['w']) if p['w'] else '') + p['ty']
                 text += '{' + p['n'] + (':' + spec if spec or self.r.random() < .1 else '') + '}'
@@ -1604,8 +1654,8 @@ class Render:
         negp = x.get('_negp', set())
         for ip in x['ip']:
             self.scope[ip['n']] = ((PH_OPEN + ip['n'] + PH_CLOSE) if fl1 else '$' + ip['n'], ip['n'] in negp)
-        for sn in x['sp']:
-            self.scope[sn] = ((PH_OPEN + sn + PH_CLOSE) if fl1 else '$' + sn, False)
+        for sp in x['sp']:
+            self.scope[sp['n']] = ((PH_OPEN + sp['n'] + PH_CLOSE) if fl1 else '$' + sp['n'], False)
         old = self.nolowerhex
         self.nolowerhex = True
         body = self.term(x['body'], '' if x['flags'] & 2 else None)
@@ -1618,7 +1668,15 @@ class Render:
         if x['ip'] or x['sp']:
             sig += '(' + ','.join(ip['n'] + ('=%s' % self.lit(ip['d'], True) if ip['hasd'] else '') for ip in x['ip']) + ')'
         if x['sp']:
-            sig += '(' + ','.join(x['sp']) + ')'
+            # defaults of string parameters are written with the placeholder syntax the flags select
+            saved2 = dict(self.scope)
+            for ip in x['ip']:
+                self.scope[ip['n']] = ('{' + ip['n'] + '}' if fl1 else '$' + ip['n'], False)
+            sig += '(' + ','.join(sp['n'] + ('=' + self.term(sp['d'], ',') if sp['hasd'] else '') for sp in x['sp']) + ')'
+            self.scope = saved2
+            self.used.add('def:string-params')
+            if any(sp['hasd'] for sp in x['sp']):
+                self.used.add('def:string-default')
         definition = r.choice(['', ' ']) + sig + r.choice([' ', '  ']) + body + r.choice(['', ' '])
         required = any(not ip['hasd'] for ip in x['ip'])
         st = self.strings([definition], single=True)
@@ -1635,11 +1693,20 @@ class Render:
     def m_Call(self, x, follow):
         d = self.defs[x['n']]
         names = [ip['n'] for ip in d['ip']]
-        if d['sp']:
+        if d['sp'] and (x['sa'] or not all(sp['hasd'] for sp in d['sp'])):
             items = [self.term(a, None) for a in x['sa']]
-            st = self.strings(items, single=len(items) == 1)
+            # docs: "if every string parameter of the defined macro is optional, the string arguments must be
+            # either omitted entirely or provided between parentheses"
+            st = self.strings(items, single=len(d['sp']) == 1, parens_only=all(sp['hasd'] for sp in d['sp']))
             pr = self.ints(x['p'], len(names), st[0], names) if names else ''
+            if len(x['sa']) < len(d['sp']):
+                self.used.add('call:string-default')
             return '#' + x['n'], pr + st
+        if d['sp']:
+            # all string arguments omitted: the macro must not be followed by an opening parenthesis
+            self.used.add('call:string-default')
+            if follow is None or follow == '(':
+                raise CannotRender('optional string arguments omitted before a parenthesis')
         if not names:
             if follow is None or follow.isupper():
                 raise CannotRender('macro name would run into the following text')
